@@ -165,8 +165,9 @@ def afStepR (k : Nat) (buffered : Bool) (z : α) (s : AFState α) (i : AFIn α) 
     bval := if i.tr && rst then false else if bufLoad then ireadable s else s.bval
     bdat := if bufLoad then memOut z s else s.bdat }
 
-def runFromR (k : Nat) (buffered : Bool) (z : α) (s : AFState α) : List (AFIn α × Bool) → AFState α
+/-- A schedule in which the reset is high throughout. -/
+def runRst (k : Nat) (b : Bool) (z : α) (s : AFState α) : List (AFIn α) → AFState α
   | [] => s
-  | x :: xs => runFromR k buffered z (afStepR k buffered z s x.1 x.2) xs
+  | i :: is => runRst (afStepR k b z s i true) is
 
 end Litex.Cdc
